@@ -171,3 +171,123 @@ Section Perm.
   Theorem nd_permitted_perm q v r : nd_permitted rg rxf q v r -> Permutation r (sem rg rxf q v).
   Proof. intros H. apply (nd_segs_perm v q [([], v)] r [([], v)] H). apply Permutation_refl. Qed.
 End Perm.
+
+(* ---- exhaustiveness: every permitted nodelist is returned for some supply of scripts ---- *)
+From JP Require Import Proofs.NdExh Proofs.NdReloc.
+
+Lemma shuffle_onto {A} (items target : list A) : Permutation target items -> exists s, fst (shuffle s items) = target.
+Proof.
+  intros Hp. unfold shuffle. destruct items as [|a [|b cs]].
+  - apply Permutation_sym, Permutation_nil in Hp. subst. exists []. reflexivity.
+  - apply Permutation_sym, Permutation_length_1_inv in Hp. subst. exists []. reflexivity.
+  - destruct (apply_perm_onto target (a :: b :: cs) (Permutation_sym Hp)) as [idx E]. exists [idx]. cbn [take1 fst]. exact E.
+Qed.
+
+Lemma nd_children_onto n cs : kids_order n cs -> exists pre, forall sup, nd_children (pre ++ sup) n = (cs, sup).
+Proof.
+  unfold kids_order, nd_children. destruct (snd n); try (intros ->; exists []; reflexivity).
+  intros Hp. destruct (shuffle_onto (children n) cs Hp) as [s E]. exists [s]. intros sup. cbn [app take_sub]. rewrite E. reflexivity.
+Qed.
+
+Lemma nd_each_scalar_nil {A} (P : A -> list node -> Prop) (f : A -> bool) :
+  (forall x r1, f x = false -> (P x r1 <-> r1 = [])) -> forall l r, nd_each P l r <-> nd_each P (filter f l) r.
+Proof.
+  intros HP. induction l as [|x l IH]; intros r; [reflexivity|]. cbn [filter]. destruct (f x) eqn:Ex.
+  - split; intros H; inversion H; subst; constructor; try assumption; apply IH; assumption.
+  - split; intros H.
+    + inversion H; subst. match goal with H1 : P x ?r1 |- _ => apply (HP x r1 Ex) in H1; subst end. cbn [app]. apply IH. assumption.
+    + change r with ([] ++ r). constructor; [apply (HP x [] Ex); reflexivity | apply IH; exact H].
+Qed.
+
+Section Exhaustive.
+  Variable cfg : envcfg.
+  Notation rg := (reg cfg).
+  Notation rxf := (rx cfg).
+  Hypothesis Hreg : reg_ok rg = true.
+  Hypothesis HN : (1 <= max_depth cfg)%nat.
+  Notation good := (good cfg).
+  Notation goods := (goods cfg).
+
+  Lemma nd_sel_exh root s n r : wt_sel rg s = true -> good root -> good (snd n) -> NondetQ.nd_sel rg rxf root n s r ->
+    exists pre, forall sup, NdEval.nd_sel cfg root (pre ++ sup) s n = Ok (r, sup).
+  Proof.
+    intros Hwt Hr Hn H.
+    assert (Hdet : forall s0, s0 = s -> r = s_sel rg rxf root s0 n -> exists pre : supply, forall sup, (do r0 <- m_sel cfg root s0 n; Ok (r0, pre ++ sup)) = Ok (r, sup)).
+    { intros s0 -> ->. exists []. intros sup. destruct (refine_all cfg Hreg HN) as [Hs _]. rewrite (Hs s Hwt root n Hr Hn). reflexivity. }
+    destruct s as [k | i | a b c | | e]; cbn [NdEval.nd_sel NondetQ.nd_sel] in *; try (apply (Hdet _ eq_refl H)).
+    - destruct (nd_children_onto n r H) as [pre Hp]. exists pre. intros sup. rewrite Hp. reflexivity.
+    - destruct H as (cs & Hk & ->). destruct (nd_children_onto n cs Hk) as [pre Hp]. exists pre. intros sup. rewrite Hp.
+      rewrite (filter_list_ok cfg Hreg HN root e cs Hwt Hr (kids_order_good cfg n cs Hn Hk)). reflexivity.
+  Qed.
+
+  Lemma nd_sels_exh root ss n r : wt_sels cfg ss = true -> good root -> good (snd n) -> NondetQ.nd_sels rg rxf root ss n r ->
+    exists pre, forall sup, NdEval.nd_sels cfg root (pre ++ sup) ss n = Ok (r, sup).
+  Proof.
+    intros Hwt Hr Hn H. unfold NondetQ.nd_sels in H. induction H as [|s ss r1 r2 H1 _ IH].
+    - exists []. reflexivity.
+    - cbn [wt_sels] in Hwt. apply andb_true_iff in Hwt as [W1 W2]. destruct (nd_sel_exh root s n r1 W1 Hr Hn H1) as [p1 E1]. destruct (IH W2) as [p2 E2].
+      exists (p1 ++ p2). intros sup. rewrite <- app_assoc. cbn [NdEval.nd_sels]. rewrite E1. cbn [bind fst snd]. rewrite E2. reflexivity.
+  Qed.
+
+  Lemma nd_nodes_exh (F : supply -> node -> result (list node * supply)) (P : node -> list node -> Prop) :
+    (forall n r, good (snd n) -> P n r -> exists pre, forall sup, F (pre ++ sup) n = Ok (r, sup)) ->
+    forall ns r, goods ns -> nd_each P ns r -> exists pre, forall sup, nd_nodes F (pre ++ sup) ns = Ok (r, sup).
+  Proof.
+    intros HF ns r Hns H. induction H as [|n ns r1 r2 H1 _ IH].
+    - exists []. reflexivity.
+    - inversion Hns as [|? ? Hn Hns']; subst. destruct (HF n r1 Hn H1) as [p1 E1]. destruct (IH Hns') as [p2 E2].
+      exists (p1 ++ p2). intros sup. rewrite <- app_assoc. cbn [nd_nodes]. rewrite E1. cbn [bind fst snd]. rewrite E2. reflexivity.
+  Qed.
+
+  Lemma kids_order_scalar n cs : isc n = false -> kids_order n cs -> cs = [].
+  Proof. unfold isc, kids_order, children. destruct (snd n); try discriminate; intros _ ->; reflexivity. Qed.
+
+  Lemma nd_sels_scalar root ss x r1 : isc x = false -> (NondetQ.nd_sels rg rxf root ss x r1 <-> r1 = []).
+  Proof.
+    intros Hx. unfold NondetQ.nd_sels. split.
+    - intros H. induction H as [|s ss r1 r2 H1 _ IH]; [reflexivity|]. rewrite IH, app_nil_r.
+      destruct s; cbn [NondetQ.nd_sel] in H1; try (rewrite H1; apply (s_sel_scalar_any cfg); exact Hx).
+      + apply (kids_order_scalar x r1 Hx H1).
+      + destruct H1 as (cs & Hk & ->). rewrite (kids_order_scalar x cs Hx Hk). reflexivity.
+    - intros ->. induction ss as [|s ss IH]; [constructor|]. change (@nil node) with (@nil node ++ []). constructor; [|exact IH].
+      destruct s; cbn [NondetQ.nd_sel]; try (symmetry; apply (s_sel_scalar_any cfg); exact Hx).
+      + unfold isc, kids_order, children in *. destruct (snd x); try discriminate; reflexivity.
+      + exists []. split; [unfold isc, kids_order, children in *; destruct (snd x); try discriminate; reflexivity | reflexivity].
+  Qed.
+
+  Lemma nd_seg_exh root sg ns r : wt_seg rg sg = true -> good root -> goods ns -> NondetQ.nd_seg rg rxf root sg ns r ->
+    exists pre, forall sup, NdEval.nd_seg cfg root (pre ++ sup) sg ns = Ok (r, sup).
+  Proof.
+    intros Hwt Hr Hns H. destruct sg as [ss | ss]; cbn [NdEval.nd_seg NondetQ.nd_seg] in *.
+    - apply (nd_nodes_exh (fun sup n => NdEval.nd_sels cfg root sup ss n) (NondetQ.nd_sels rg rxf root ss)); [|exact Hns | exact H].
+      intros n r0 Hn H0. apply (nd_sels_exh root ss n r0 Hwt Hr Hn H0).
+    - refine (nd_nodes_exh _ _ _ ns r Hns H).
+      intros n r0 Hn (o & Hperm & Hval & He). destruct n as [loc v]. cbn [fst snd] in *.
+      destruct (nd_exhaustive_at (max_depth cfg) loc v o (proj2 Hn) HN (proj1 Hn) Hperm Hval) as (script & vs & Ev & Hf).
+      destruct (nd_visit_valid_at _ _ loc v vs (proj2 Hn) Ev) as [_ Hpv].
+      assert (Hvs : goods vs).
+      { apply goods_iff. intros d Hd. eapply (descendants_P good (good_hered cfg)); [exact Hn | eapply Permutation_in; [exact Hpv | exact Hd]]. }
+      assert (He' : nd_each (NondetQ.nd_sels rg rxf root ss) vs r0).
+      { apply (proj2 (nd_each_scalar_nil _ isc (nd_sels_scalar root ss) vs r0)). rewrite Hf. apply (proj1 (nd_each_scalar_nil _ isc (nd_sels_scalar root ss) o r0)). exact He. }
+      destruct (nd_nodes_exh (fun sup n => NdEval.nd_sels cfg root sup ss n) (NondetQ.nd_sels rg rxf root ss)
+                  (fun n1 r1 Hn1 H1 => nd_sels_exh root ss n1 r1 Hwt Hr Hn1 H1) vs r0 Hvs He') as [p2 E2].
+      exists (script :: p2). intros sup. cbn [app take_sub]. rewrite Ev. cbn [bind]. apply E2.
+  Qed.
+
+  Lemma nd_segs_exh root q : wt_query rg q = true -> good root -> forall ns r, goods ns -> NondetQ.nd_segs rg rxf root q ns r ->
+    exists pre, forall sup, NdEval.nd_segs cfg root (pre ++ sup) q ns = Ok (r, sup).
+  Proof.
+    intros Hwt Hr ns r Hns H. induction H as [ns | sg q ns mid r H1 _ IH].
+    - exists []. reflexivity.
+    - unfold wt_query in Hwt. cbn [forallb] in Hwt. apply andb_true_iff in Hwt as [W1 W2].
+      destruct (nd_seg_exh root sg ns mid W1 Hr Hns H1) as [p1 E1].
+      assert (Hmid : goods mid). { pose proof (E1 []) as E. apply (nd_seg_valid cfg Hreg HN root sg W1 Hr _ ns mid _ Hns) in E. exact (proj2 E). }
+      destruct (IH W2 Hmid) as [p2 E2]. exists (p1 ++ p2). intros sup. rewrite <- app_assoc. cbn [NdEval.nd_segs]. rewrite E1. cbn [bind fst snd]. apply E2.
+  Qed.
+
+  Theorem nd_query_exhaustive q v r : wt_query rg q = true -> good v -> nd_permitted rg rxf q v r -> exists sup, m_find_nd cfg sup q v = Ok r.
+  Proof.
+    intros Hwt Hv H. destruct (nd_segs_exh v q Hwt Hv [([], v)] r ltac:(constructor; [exact Hv | constructor]) H) as [pre E].
+    exists pre. unfold m_find_nd. rewrite <- (app_nil_r pre), E. reflexivity.
+  Qed.
+End Exhaustive.
